@@ -78,7 +78,7 @@ KeyCaps == <<0, 3, 4, 5, 8, 44, 64, 100>>
 KeyDates == << <<1, 1, 1>>, <<999, 12, 31>>, <<1000, 1, 1>>, <<2000, 2, 29>>, <<2015, 8, 30>>, <<2016, 2, 29>>,
                <<2100, 2, 28>>, <<9999, 12, 31>>, <<2015, 1, 1>>, <<2015, 1, 31>>, <<2015, 2, 1>>, <<2015, 2, 28>>,
                <<2015, 3, 1>>, <<2015, 4, 30>>, <<2015, 9, 9>>, <<2015, 10, 10>>, <<2015, 12, 1>>, <<2015, 12, 31>> >>
-KeyNames == << <<>>, B("us-east-1"), <<195, 169>>, [i \in 1..300 |-> 97 + (i % 26)], B("aws4_request"), B("s3") >>
+KeyNames == << <<>>, B("us-east-1"), <<195, 169>>, [i \in 1..300 |-> 97 + (i % 26)], B("aws4_request"), B("s3"), B("us/east/1") >>
 KeyChainSecrets == << KeySecretOfLen(40, 1), <<>>, KeySecretOfLen(1, 1), KeySecretOfLen(39, 2), KeySecretOfLen(40, 2),
                       KeySecretOfLen(40, 3), KeySecretOfLen(20, 1), B("wJalrXUtnFEMI/K7MDENG+bPxRfiCYEXAMPLEKEY") >>
 
@@ -117,6 +117,7 @@ Dim(k) ==
       [] Family = "query_ampamp" -> IF k = 1 THEN 3 ELSE IF k <= Bound + 1 THEN 80 ELSE 0
       [] Family = "query_bytes"  -> IF k <= 3 THEN <<256, 5, 3>>[k] ELSE 0
       [] Family = "query_escapes" -> IF k <= 3 THEN <<128, 128, 2>>[k] ELSE 0
+      [] Family = "query_many"   -> IF k <= 2 THEN <<4, 40>>[k] ELSE 0
       [] Family = "ts_field"     -> IF k <= 3 THEN <<5, 100, 2>>[k] ELSE 0
       [] Family = "ts_year"      -> IF k <= 2 THEN <<Len(TsYears), 2>>[k] ELSE 0
       [] Family = "ts_offset"    -> IF k <= 4 THEN <<2, 100, 100, 2>>[k] ELSE 0
@@ -124,6 +125,7 @@ Dim(k) ==
       [] Family = "ts_frac"      -> IF k <= 4 THEN <<13, 2, 3, 2>>[k] ELSE 0
       [] Family = "ts_seps"      -> IF k <= 5 THEN <<2, 2, 2, 2, Len(TsZones)>>[k] ELSE 0
       [] Family = "ts_affix"     -> IF k = 1 THEN Len(TsAffix) ELSE 0
+      [] Family = "ts_subst"     -> IF k <= 3 THEN <<2, 20, 8>>[k] ELSE 0
       [] Family = "key_caps"     -> IF k <= 3 THEN <<Len(KeyLens), 3, Len(KeyCaps)>>[k] ELSE 0
       [] Family = "key_chain"    -> IF k <= 4 THEN <<Len(KeyChainSecrets), Len(KeyDates), Len(KeyNames), Len(KeyNames)>>[k] ELSE 0
       [] Family = "hval"         -> IF k <= Bound THEN Len(HvalSigma) ELSE 0
@@ -167,6 +169,11 @@ TsCase ==
             TsMake(B("2015"), B("08"), B("30"), B("12"), B("36"), B("00"),
                    Bool(idx[1]), Bool(idx[2]), Bool(idx[3]), Bool(idx[4]), <<>>, TsZones[idx[5]])
       [] Family = "ts_affix" -> TsAffix[idx[1]]
+      [] Family = "ts_subst" ->
+            \* every position of the basic / extended rendering replaced by a sign, a blank or another separator
+            LET base == TsBase(Bool(idx[1]), B("Z"))
+                c == <<43, 45, 32, 58, 46, 48, 84, 90>>[idx[3]]
+            IN IF idx[2] <= Len(base) THEN [base EXCEPT ![idx[2]] = c] ELSE base \o <<c>>
 
 Case ==
     CASE Family = "path_segs" ->
@@ -196,7 +203,7 @@ Case ==
             [op |-> "query", q |-> CASE idx[1] = 1 -> QOf(f, <<38, 38>>)
                                      [] idx[1] = 2 -> <<38>> \o QOf(f, <<38>>)
                                      [] idx[1] = 3 -> QOf(f, <<38>>) \o <<38>>]
-      [] Family \in {"ts_field", "ts_year", "ts_offset", "ts_calendar", "ts_frac", "ts_seps", "ts_affix"} ->
+      [] Family \in {"ts_field", "ts_year", "ts_offset", "ts_calendar", "ts_frac", "ts_seps", "ts_affix", "ts_subst"} ->
             [op |-> "ts", s |-> TsCase]
       [] Family = "key_caps" ->
             [op |-> "key", secret |-> KeySecretOfLen(KeyLens[idx[1]], idx[2]), cap |-> KeyCaps[idx[3]],
@@ -213,6 +220,13 @@ Case ==
       [] Family = "vreqs" ->
             [op |-> "vreqs", always |-> VInits[idx[1]], ifin |-> VInits[idx[1]], prefix |-> VInits[idx[1]],
              ops |-> [i \in 1..(Len(idx) - 1) |-> VOp(idx[i + 1])]]
+      [] Family = "query_many" ->
+            \* many parameters with few names (long runs of equal names with different values), in 40 rotations
+            LET n    == <<21, 33, 40, 64>>[idx[1]]
+                name(i) == <<97 + (i % 3)>>
+                pair(i) == name(i) \o <<61>> \o Dec((i * 7) % n, 2)
+                rot  == idx[2] - 1
+            IN [op |-> "query", q |-> Join([i \in 1..n |-> pair(((i + rot) % n) + 1)], <<38>>)]
       [] Family = "query_escapes" ->
             LET e == <<37, idx[1] - 1, idx[2] - 1>> IN
             [op |-> "query", q |-> IF idx[3] = 1 THEN B("v=") \o e ELSE B("a") \o e \o B("b=1&c=2")]
